@@ -180,10 +180,14 @@ func (c *c01Case) Key() string {
 
 // hosts whose content model is special for the HTML5 parser (raw text, escapable raw text,
 // scripting-dependent, foreign context, table and select scoping)
-var c01Hosts = []string{"noscript", "iframe", "xmp", "textarea", "title", "noembed", "noframes", "pre", "option", "td", "button", "svg"}
+var c01Hosts = []string{"noscript", "iframe", "xmp", "textarea", "title", "noembed", "noframes", "pre", "option", "td", "button", "svg", "svg-style", "math-style", "svg-script"}
 
 func c01HostAlphabet(host string) []string {
-	return append(append([]string{}, c01Alphabet...), "</"+host+">")
+	end := host
+	if i := strings.Index(host, "-"); i > 0 {
+		end = host[i+1:] // svg-style: the end tag that could close the sink is </style>
+	}
+	return append(append([]string{}, c01Alphabet...), "</"+end+">")
 }
 
 func c01WrapHost(host, sinkHTML string) string {
@@ -197,6 +201,12 @@ func c01WrapHost(host, sinkHTML string) string {
 		return "<table><tr>" + el + "</tr></table>"
 	case "svg":
 		return "<svg><text" + inner + "</text></svg>"
+	case "svg-style": // <style> and <script> in foreign content are ordinary elements, not raw text
+		return "<svg><style" + inner + "</style></svg>"
+	case "math-style":
+		return "<math><style" + inner + "</style></math>"
+	case "svg-script":
+		return "<svg><script" + inner + "</script><g><style" + strings.Replace(inner, ` id="s"`, "", 1) + "</style></g></svg>"
 	}
 	return el
 }
@@ -356,7 +366,7 @@ func init() {
 		Level: "exploration",
 		Rule: "all token strings up to the bound over the alphabet " + fmt.Sprintf("%q", c01Alphabet) + " plus 7 non-string values, in every sink (text, v-text, interpolated attr, :attr, v-bind:attr) x static neighbourhood (6) x enclosing construct (" + fmt.Sprint(len(c01Constructs)) + ": 12 single-evaluation constructs swept with the full alphabet, 12 constructs in which one source node is evaluated repeatedly - slot content used twice / in a loop, cached components, template-rooted components, a second render - swept with the 7 tokens that matter for repeated interpolation); " +
 			"oracle: HTML5 re-parse has the same element/attribute-name skeleton as with the value 'zqx', and a canary bound to `secret` never appears. non-trivial = value contains one of < > \" ' & {; distinct = distinct (context, token vector)",
-		Bounds:      map[string]string{"quick": "token strings of length <= 3 in all contexts; text sink inside 12 special host elements (raw-text, RCDATA, noscript in both scripting modes, select, table, svg) with the host's end tag added to the alphabet, length <= 3", "thorough": "token strings of length <= 3 in all contexts, length 4 in the N0 neighbourhood of every sink and construct"},
+		Bounds:      map[string]string{"quick": "token strings of length <= 3 in all contexts; text sink inside 15 special host elements (raw-text, RCDATA, noscript in both scripting modes, select, table, svg text, style / script inside svg and math) with the host's end tag added to the alphabet, length <= 3", "thorough": "token strings of length <= 3 in all contexts, length 4 in the N0 neighbourhood of every sink and construct"},
 		Assumptions: []string{"golang.org/x/net/html is a faithful HTML5 parser", "v-html sinks and script/style bodies are exempt and never used as sinks"},
 		Decode:      core.DecodeAs[c01Case](),
 		Enumerate: func(tier string, emit func(core.Case)) {
